@@ -34,6 +34,7 @@ type program struct {
 	intrinsicMiss      map[*ssa.Function]bool
 	stubNames          map[string]bool // intrinsics used (for evidence)
 	hashFn             *ssa.Function
+	pure               map[string]bool // functions summarised instead of forked
 }
 
 func (p *program) runtimeError(msg string) value {
